@@ -21,6 +21,9 @@ is the cookie, the rest are attributes) and a reference model written from the s
 * read-back: a second request carrying ``Cookie: name=<raw value taken from the Set-Cookie line>; ...``
   makes ``get_cookie(name)`` return the value that was set (``get_signed_cookie`` for signed cookies, ""
   for cleared ones) and ``request.cookies`` hold exactly those names.
+* streaming responses (``write; flush; write; finish``, ``flush`` alone, two flushes): every cookie set
+  before the first ``flush()`` is emitted exactly as set; a cookie call made after the headers have left
+  cannot be emitted any more (EITHER raises or is ignored) and must not disturb the earlier ones;
 * a call that raised has no effect at all: the cookies set by earlier successful calls (same name
   included) are still emitted exactly as set, and nothing of the rejected call is.
 * a plain HTTP date given through the deprecated ``Expires=`` spelling (documented as accepted) is not
@@ -49,6 +52,12 @@ Sensitivity (scratch copies, quick tier, seed 1):
     http.cookies.Morsel._reserved of the running Python in display / upper / capitalised / lower spelling
     (Expires, Max-Age, Secure, HttpOnly, Version, Comment ..., 24 spellings + 2 unknown ones) x 23 payloads, and the
     enumerated "legacy" part runs each alone and on top of explicit parameters via set / signed / clear (1372 cases).
+  * web.py the block that turns _new_cookie into Set-Cookie headers moved from flush() into finish()'s
+    "if not self._headers_written" section: with an explicit flush() before finish() the headers leave without the
+    cookies -> caught at seeds 1,2,3 (cookie_missing_after_flush; deterministic "shapes" part + the exploration's
+    streaming arm).  Missed before: the handler always finished without flushing.  Cases may now contain the pseudo-op
+    ("flush", "", "w"|"", {}) = [write(b"part");] flush(); the model keeps every cookie set before the first flush
+    and treats cookie calls after it as EITHER (cannot be emitted any more).
   * web.py attribute validation applied unchanged (SP forbidden) to the deprecated Expires= keyword, i.e. the
     tree before the F-C25-legacy-expires-space repair: Expires="Wed, 01 Jan 2030 00:00:00 GMT" raises   -> caught
     (valid_legacy_expires_rejected, replays/C25/legacy-expires-plain-date.json + "legacy" sweep).
@@ -78,7 +87,8 @@ RULE = (
     "str or bytes; each attribute independently drawn incl. invalid ones) executed by one handler, followed by "
     "a read-back request; non-trivial = a value or attribute contains a separator, quote or non-ASCII "
     "character, or one name is set twice; one case in four is an accepted call followed by a rejected call "
-    "for the same name; distinct = SHA-1 of the op list"
+    "for the same name, one in four a streaming response (cookie calls, flush(), optionally more calls / a second "
+    "flush); plus enumerated parts 'shapes' (streaming shapes per api) and 'legacy'; distinct = SHA-1 of the op list"
 )
 ASSUMPTIONS = [
     "reference attribute model written from the set_cookie / clear_cookie / set_signed_cookie docstrings",
@@ -173,6 +183,14 @@ class CookieHandler(tornado.web.RequestHandler):
         if c["phase"] == "set":
             for op in c["ops"]:
                 t0 = time.time()
+                if op[0] == "flush":
+                    # streaming response: ("flush", "", "w"|"", {}) = [write a part,] flush() before finish()
+                    if op[2]:
+                        self.write(b"part")
+                    self.flush()
+                    c["raised"].append(None)
+                    c["times"].append((t0, time.time()))
+                    continue
                 try:
                     do_op(self, op)
                     c["raised"].append(None)
@@ -301,6 +319,8 @@ def evaluate(ops):
         return problem("C25.handler_did_not_run_all_calls")
     for op, r in zip(ops, raised):
         labels.add("api:" + op[0])
+        if op[0] == "flush":
+            continue
         labels.add("raised" if r is not None else "accepted")
         if r is not None:
             labels.add("raised:" + type(r).__name__)
@@ -336,7 +356,10 @@ def evaluate(ops):
     if o.strict is None:
         return problem("C25.strict_reader_rejects_response", {"strict_error": o.strict_error})
     r = o.resp
-    if r.code != 200 or r.body != b"ok":
+    want_body = b"part" * sum(1 for op in ops if op[0] == "flush" and op[2]) + b"ok"
+    if any(op[0] == "flush" for op in ops):
+        labels.add("flushed_before_finish")
+    if r.code != 200 or r.body != want_body:
         return problem("C25.handler_response_changed", {"code": r.code, "body": r.body[:100]})
 
     # ---- model: last successful call per name
@@ -345,8 +368,17 @@ def evaluate(ops):
     # room for a rejected call changing what earlier, successful calls emit.
     accepted_before = set()
     count = {}
+    flushed = False
     for op, rz, tm in zip(ops, raised, times):
         name = op[1]
+        if op[0] == "flush":
+            flushed = True
+            continue
+        if flushed:
+            # The header block left with the first flush(): a cookie call made after it cannot be emitted any
+            # more (EITHER raises or is ignored).  Everything set BEFORE the first flush must be emitted.
+            labels.add("cookie_call_after_flush")
+            continue
         if rz is not None:
             if name in accepted_before:
                 labels.add("raise_after_accept_same_name")
@@ -358,6 +390,8 @@ def evaluate(ops):
         labels.add("same_name_twice")
     if len(model) >= 2:
         labels.add("several_names")
+    if model and "flushed_before_finish" in labels:
+        labels.add("cookie_set_before_flush")
 
     lines = {}
     for v in r.get_all(b"set-cookie"):
@@ -377,7 +411,8 @@ def evaluate(ops):
             if "raise_after_accept_same_name" in labels and any(
                     rz is not None and op2[1] == name for op2, rz in zip(ops, raised)):
                 return problem("C25.rejected_call_removed_earlier_cookie", {"name": name})
-            return problem("C25.cookie_missing", {"name": name})
+            return problem("C25.cookie_missing_after_flush" if "flushed_before_finish" in labels else "C25.cookie_missing",
+                           {"name": name})
         raw, attrs, line = lines[name]
         want = model_attrs(op, tm)
         got = {}
@@ -599,8 +634,41 @@ def _accept_then_reject():
                      st.one_of(st.none(), _op()), st.booleans())
 
 
+FLUSH_W = ("flush", "", "w", {})      # write(b"part"); flush()
+FLUSH_0 = ("flush", "", "", {})       # flush() with nothing written yet
+
+
+def _streaming():
+    """Cookie calls, then an explicit flush() of partial output before finish(); optionally more cookie
+    calls / another flush afterwards."""
+    def build(before, fl, after, fl2):
+        ops = list(before) + [fl] + list(after)
+        if fl2 is not None:
+            ops.append(fl2)
+        return ops
+    return st.builds(build, st.lists(_op(), min_size=1, max_size=2), st.sampled_from([FLUSH_W, FLUSH_W, FLUSH_0]),
+                     st.lists(_op(), max_size=1), st.sampled_from([None, None, FLUSH_W]))
+
+
 case_s = st.one_of(st.lists(_op(), min_size=1, max_size=3), st.lists(_op(), min_size=1, max_size=3),
-                   st.lists(_op(), min_size=1, max_size=3), _accept_then_reject())
+                   _streaming(), _accept_then_reject())
+
+
+def shape_cases():
+    """Deterministic response shapes: every api x {write;flush;write;finish, flush only, cookie calls on both
+    sides of the flush, two flushes, same name before and after}."""
+    firsts = [("set", "a", "v", {}), ("set", "sid", 'x;y"z', {"domain": "example.com", "secure": True, "max_age": 0}),
+              ("signed", "a", "v", {}), ("signed", "s", b"\xff\x00", {"httponly": True, "version": 1}),
+              ("clear", "a", "", {}), ("clear", "a", "", {"path": "/x", "domain": "example.com"})]
+    for f in firsts:
+        for fl in (FLUSH_W, FLUSH_0):
+            yield [f, fl]
+            yield [f, fl, FLUSH_W]
+            yield [f, ("set", "b", "2", {}), fl]
+            yield [f, fl, ("set", "b", "2", {})]              # b comes too late: not emitted, a is
+            yield [f, fl, (f[0], f[1], "" if f[0] == "clear" else "late", {})]   # same name again after the flush
+            yield [f, ("set", f[1], "\u20ac", {}), fl]        # rejected second call, then flush
+            yield [fl, f]                                      # cookie only after the flush
 
 def legacy_sweep():
     """Every legacy spelling of every cookie attribute x every payload, alone and on top of explicit
@@ -616,10 +684,11 @@ def legacy_sweep():
             yield [("clear", "a", "", {"legacy": {k: v}})]
 
 
-PARTS = {"main": run_case, "legacy": run_case}
+PARTS = {"main": run_case, "legacy": run_case, "shapes": run_case}
 
 
 def main(ctx):
     ctx.run_replays(PARTS)
+    ctx.enumerate(shape_cases(), run_case, name="shapes")
     ctx.enumerate(legacy_sweep(), run_case, name="legacy")
     ctx.explore(case_s, run_case, ctx.n(1500, 80000), name="main")
